@@ -21,6 +21,7 @@ func init() {
 			{ID: "C03.R5", Floor: 12, Doc: "primitive writers: big-endian widths and length prefixes", Run: c03r5},
 			{ID: "C03.R7", Floor: 5, Doc: "uint16(len(x)) counts in frame writers are bounded", Run: c03r7},
 			{ID: "C03.R8", Floor: 1, Doc: "marshalQueryValue: unset is decided after unwrapping a named value", Run: c03r8},
+			{ID: "C03.R9", Floor: 1, Doc: "finish(): header compression flag and body form agree on every path (=C18.R6)", Run: c18r6},
 		},
 	})
 }
